@@ -57,6 +57,22 @@ def step_of_stmt(st, roles, where, expand_call=None):
         return []
     if isinstance(st, ast.If) and re.search(r"isWindows\(\)|win32", U(st.test)):
         return []      # Windows-only branch; the model is POSIX
+    if isinstance(st, ast.Try):
+        # try: <exactly one move>  except: (try: <unlink> except OSError: pass); raise      -- nothing else is accepted
+        body = steps_of_body(st.body, roles, where, expand_call)
+        ok = (len(st.handlers) == 1 and st.handlers[0].type is None and not st.orelse and not st.finalbody
+              and len(body) == 1 and body[0].startswith("SMove "))
+        if ok:
+            hb = strip_doc(st.handlers[0].body)
+            ok = (len(hb) == 2 and isinstance(hb[1], ast.Raise) and hb[1].exc is None and isinstance(hb[0], ast.Try)
+                  and len(hb[0].handlers) == 1 and U(hb[0].handlers[0].type) in ("OSError", "EnvironmentError")
+                  and [U(x) for x in hb[0].handlers[0].body] == ["pass"] and not hb[0].orelse and not hb[0].finalbody)
+            if ok:
+                inner = steps_of_body(hb[0].body, roles, where, expand_call)
+                ok = len(inner) == 1 and inner[0].startswith("SUnlink ")
+        if not ok:
+            raise P.Untranslatable("%s: unrecognised try statement: %s" % (where, t))
+        return ["SMoveElseUnlink %s %s" % (body[0][len("SMove "):], inner[0][len("SUnlink "):])]
     if isinstance(st, ast.Assert):
         if roles.mentions(U(st.test)):
             raise P.Untranslatable("%s: assertion on a file variable: %s" % (where, t))
